@@ -101,7 +101,9 @@ bool run_problem(ProblemSpec const& spec,
             ++iters;
             std::uint64_t stop_at = (batch + 1 < nbatches) ? std::uint64_t(rng.integer(1, 30)) : ~0ull;
             std::uint64_t local = 0;
-            while (res && local < stop_at)
+            if (mon.fatal())
+                capped = true;
+            while (res && local < stop_at && !mon.fatal())
             {
                 res = step();
                 mon.on_iteration(prob->probes->logs[0].iter, res, step.state().counters(), step.state_ref(), 0);
